@@ -73,6 +73,21 @@ def gen_inputs(ctx):
         root = parent(rng, k, depth=d0) if private else pub_parent(rng, k, depth=d0)
         out.append(("DerivePath", {"root": root, "path": [idx4(i) for i in path], "prf": {"by_index": {str(ibad): out64(il_bad, rng)}}},
                     ("path-fault", private, n, pos == 0, pos == n - 1)))
+    # an invalid child INSIDE a bulk request (generate_children, the route of every paper-wallet row): the request fails,
+    # whatever position the invalid index has in the batch; private and public parents, every invalid class
+    b5 = lambda v: B(v.to_bytes(5, "big"))
+    for _ in range(16 if q else 200):
+        k = rng.choice(parents)
+        private = rng.random() < 0.6
+        st = rng.choice([0, 1, 2 ** 31 - 6, rng.randrange(0, 2 ** 31 - 8)]) if (not private or rng.random() < 0.6) else rng.choice([2 ** 31, 2 ** 31 - 3, rng.randrange(2 ** 31, 2 ** 32 - 8)])
+        n = rng.randrange(1, 6)
+        pos = rng.randrange(n)
+        ibad = st + pos
+        il_bad = rng.choice([N, N + 1, TOP, (N - k) % N or N])
+        cls = "IL>=n" if il_bad >= N else "zero-child/infinity"
+        par = parent(rng, k, depth=rng.choice([0, 3, 4])) if private else pub_parent(rng, k, depth=rng.choice([0, 3, 4]))
+        out.append(("GenChildren", {"par": par, "start": b5(st), "end": b5(st + n), "prf": {"by_index": {str(ibad): out64(il_bad, rng)}}},
+                    ("genchildren-fault", private, cls, pos == 0, pos == n - 1)))
     for app, p in (("mnemonic", 12), ("wif", 0), ("xprv", 0), ("hex", 32), ("pwd", 21)):
         for _ in range(1 if q else 6):
             k = rng.choice(parents)
@@ -101,6 +116,9 @@ def gen_inputs(ctx):
 
 
 def describe(ev):
+    if ev["act"] == "GenChildren":
+        return "generate_children((%d, %d)) on a %s node, chosen PRF at one index" % (
+            int.from_bytes(bytes(ev["inp"]["start"]), "big"), int.from_bytes(bytes(ev["inp"]["end"]), "big"), "private" if ev["inp"]["par"]["prv"] else "public")
     if ev["act"] == "DerivePath":
         return "derive_path(%s) on a %s node, chosen PRF at one step" % (
             [int.from_bytes(bytes(x), "big") for x in ev["inp"]["path"]], "private" if ev["inp"]["root"]["prv"] else "public")
